@@ -2,6 +2,7 @@
 
 
 #![allow(dead_code)]
+mod bigrun;
 mod checks;
 mod exprparse;
 mod form;
@@ -24,9 +25,11 @@ fn main() {
         std::process::exit(2);
     }
     let id = args[1].clone();
-    if id == "c11-child" {
+    if id == "big-child" {
+        // big-child <check id> <model> <seed> <budget seconds>
         libg::install_panic_hook();
-        checks::c11::child_main(&args[2], args[3].parse().expect("seed"), args[4].parse().expect("budget"));
+        let body = checks::big::body(&args[2]).expect("check without big-model cases");
+        bigrun::child_main(body, &args[3], args[4].parse().expect("seed"), args[5].parse().expect("budget"));
         std::process::exit(0);
     }
     let mut cfg = RunConfig {
